@@ -213,7 +213,7 @@ FRAMES = [("status", UP), ("status", DOWN), ("status", 0x17), ("item", 11), ("it
 
 class Check(PropertyCheck):
     pid = "C17"
-    gen_files = ["GenStatus"]
+    gen_files = ["GenStatus", "GenEventsFn"]
     model_imports = ["model.Events"]
     run_expr = "run_events_case"
     case_type = "(list (N * N * list (N * Z)))"
